@@ -145,6 +145,18 @@ func runC02(c *Ctx) {
 			mk(cfg, now0+off, v, 1, 0, 1, 0, "on-bound")
 		}
 	}
+	// an assertion without any SubjectConfirmation: the Conditions window still applies
+	for _, l := range []int{0, 1} {
+		lay = l
+		for pos := 1; pos < 4; pos++ {
+			for _, kk := range []int{0, 1, 4} {
+				v := [5]int{2, 2, 2, 2, 2}
+				v[pos] = kk
+				mk(cfg, now0, v, 0, 0, 1, 0, "no-confirmation")
+			}
+		}
+	}
+	lay = 0
 	// the other signing layout (assertions signed, Response unsigned and without Destination)
 	lay = 1
 	for pos := 0; pos < 5; pos++ {
